@@ -23,3 +23,21 @@ CHECKS["C04"] = {
  "text": "Generated models (server types, base consumptions, utilisation, storage duration / replication / base need / capacity, writers and deleters over equal, overlapping and disjoint windows, zero tails) are built; raw need, per-type instance relations, the cumulative storage ledger (by timestamp), coverage, sign and active<=provisioned are checked at every hour; each model is rebuilt with a fixed count that is just enough (must be honoured exactly) or one short (must raise); every exception is classified, and a deletion-free model rejected for negative storage or any numpy shape error is a violation.",
  "note": TB + "per-job stored volumes are taken as published (C03); tolerance 2e-9 of the summed flows on the cancelling ledger",
 }
+CHECKS["C09"] = {
+ "level": "exploration",
+ "technique": "runtime monitoring: pre/post-condition contracts installed on the real operators, generated operand pairs + internal calls of system workloads",
+ "text": "Contracts wrap every arithmetic operator and helper of the three value classes; for each call they snapshot the operands, let the real code run, and compare the result with plain dict-of-floats arithmetic on base-unit magnitudes (timestamp alignment with missing = 0, dimension of the result, operands physically unchanged, incompatible dimensions must raise, empty neutral / absorbing). A generator drives ~7000 operand pairs in both orders plus algebraic laws, and generated system builds/edits run with the contracts active so that every internal call is checked too.",
+ "note": TB + "scope notes of DESIGN.md C09: scalar +/- hourly, hourly/hourly and naive-vs-aware raise by design; subtraction with missing hours is not asserted",
+}
+CHECKS["C11"] = {
+ "level": "exploration",
+ "technique": "runtime monitoring: post-condition monitor on convert_to_utc and on a real UsagePattern's update rule, per-timestamp pytz classification oracle",
+ "text": "For zones x offset transitions (1990-2037) x series ending -3..+3 h around the transition or running up to 1200 h past it, the conversion result is checked for a strictly increasing unique UTC index, preserved total, every valid local hour exactly at local-offset, and the remainder being non-negative, supported only on admissible instants and summing to the values of the repeated/skipped hours. Quick: 40 zones incl. all :30/:45 and day-skipping ones; thorough: all 433 pytz common zones.",
+ "note": TB + "pytz 2024.1 is the tz database on both sides (a newer system tzdata would raise false alarms); the exact instant a *skipped* hour is moved to is not pinned (pandas' shift_forward), only that it is merged once near its transition",
+}
+CHECKS["C20"] = {
+ "level": "exploration",
+ "technique": "runtime monitoring: post-condition monitor on every time_builders helper with an independent datetime-arithmetic oracle",
+ "text": "3600 (quick) / 100000 (thorough) generated calls of the nine helpers (start dates incl. leap days, year/month ends, mid-day starts; spans 1 h - 800 days incl. non-whole days; 6 units; all four frequencies with random active days and hours; invalid argument combinations) are checked for start, 1 h step, contiguity, length, unit and every value against the monitor's own calendar arithmetic.",
+ "note": TB + "inclusive end of the frequency helpers and int(hours) length of the growth helpers are asserted as observed on the unchanged tree; timespans are given in hour/day units with exactly representable values",
+}
